@@ -11,7 +11,7 @@ for lg in logs:
     if not os.path.exists(path): continue
     cur=None; last=None
     for line in open(path):
-        m=re.match(r'== (m\d+-\d+) ',line)
+        m=re.match(r'== ([mn]\d+-\d+) ',line)
         if m: cur=m.group(1); continue
         m=re.match(r'(C\d+) exit=(\d+) (.*)',line)
         if m and cur:
@@ -19,7 +19,7 @@ for lg in logs:
             continue
         if last and line.startswith('   ') and line.strip():
             ALL[last[0]][last[1]]["signatures"]=line.strip()[:600]
-for d in sorted(glob.glob('/work/mut/m*-*')):
+for d in sorted(glob.glob('/work/mut/m*-*')+glob.glob('/work/mut/n*-*')):
     mid=os.path.basename(d)
     cf=os.path.join(d,'confirm.json')
     if not os.path.exists(cf) or mid not in ALL: continue
